@@ -139,6 +139,26 @@ def start (tlds l2s : List Bytes) (c : Config) : Outcome :=
   | some r => .refuse "auth" r
   | none => .ok { dummyMeans := c.dummy && !c.strict, unlistedRemoteContexts := !c.strict, clientStrict := c.strict }
 
+/-! ### per-action behaviour of a started node: clients built before strict mode was switched on; IAM endpoints -/
+
+/-- A client that an engine built BEFORE the HTTP engine (configured last) set `client.StrictMode`: its redirect check
+    reads the global at call time (`callTime` = regenerated fact), so it follows https -> http only on a lenient node.
+    Were the flag captured at construction (`callTime = false`), the early client would never be strict. -/
+def earlyClientFollowsHttp (callTime : Bool) (c : Config) : Bool := !(callTime && c.strict)
+
+/-- strictness of the IAM client's endpoint checks: `auth.strictMode`, which equals the configured strict mode only if
+    `Configure` assigns it (`assigned` = regenerated fact); Go's zero value otherwise -/
+def iamStrict (assigned : Bool) (c : Config) : Bool := assigned && c.strict
+
+/-- `IAMClient().ClientMetadata(endpoint)` on a started node: endpoint check, then the request through the strict client -/
+def iamEndpoint (tlds l2s : List Bytes) (assigned : Bool) (c : Config) (endpoint : Bytes) : String :=
+  match parsePublicURL tlds l2s endpoint (iamStrict assigned c) with
+  | .ok _ =>
+    match parseURL endpoint with
+    | .ok u => if c.strict && u.scheme ≠ sHttpsB then "refused-client" else "sent"
+    | _ => "refused-endpoint"
+  | _ => "refused-endpoint"
+
 /-! ### the documented insecure settings -/
 
 inductive Insecure where
